@@ -276,30 +276,44 @@ pub fn make_fcis<'a>(cfg: &'a Cfg, out: &mut Vec<FciB<'a>>) {
     }
 }
 
+/// The six field setters of a report block are independent; an application calls them in whatever order its own
+/// data arrives. The order used here is a permutation picked by the block's contents (deterministic per block, all
+/// 720 occur over a workload), so that a setter with a side effect on a sibling field shows in every monitor that
+/// builds a report, not only where histories are compared (C20).
+fn rb_order(b: &Rb, salt: u64) -> [usize; 6] {
+    let mut h = (b.ssrc as u64) << 32 | b.jitter as u64;
+    h ^= ((b.lsr as u64) << 17) ^ ((b.dlsr as u64) << 3) ^ ((b.ext_seq as u64) << 29) ^ (b.cumulative as u64) ^ ((b.fraction as u64) << 56) ^ salt;
+    let mut o = [0usize, 1, 2, 3, 4, 5];
+    for i in (1..6).rev() {
+        h = crate::source::mix(h, i as u64);
+        o.swap(i, (h % (i as u64 + 1)) as usize);
+    }
+    o
+}
+
+fn rb_set(bld: ReportBlockBuilder, k: usize, b: &Rb, junk: bool) -> ReportBlockBuilder {
+    match k {
+        0 => bld.fraction_lost(if junk { !b.fraction } else { b.fraction }),
+        1 => bld.cumulative_lost(if junk { !b.cumulative & 0xff_ffff } else { b.cumulative }),
+        2 => bld.extended_sequence_number(if junk { !b.ext_seq } else { b.ext_seq }),
+        3 => bld.interarrival_jitter(if junk { !b.jitter } else { b.jitter }),
+        4 => bld.last_sender_report_timestamp(if junk { !b.lsr } else { b.lsr }),
+        _ => bld.delay_since_last_sender_report_timestamp(if junk { !b.dlsr } else { b.dlsr }),
+    }
+}
+
 pub fn mk_rb(b: &Rb) -> ReportBlockBuilder {
+    let mut bld = ReportBlock::builder(b.ssrc);
     if reconfing() {
         // every field first set to another (legal) value
-        return ReportBlock::builder(b.ssrc)
-            .fraction_lost(!b.fraction)
-            .cumulative_lost(!b.cumulative & 0xff_ffff)
-            .extended_sequence_number(!b.ext_seq)
-            .interarrival_jitter(!b.jitter)
-            .last_sender_report_timestamp(!b.lsr)
-            .delay_since_last_sender_report_timestamp(!b.dlsr)
-            .fraction_lost(b.fraction)
-            .cumulative_lost(b.cumulative)
-            .extended_sequence_number(b.ext_seq)
-            .interarrival_jitter(b.jitter)
-            .last_sender_report_timestamp(b.lsr)
-            .delay_since_last_sender_report_timestamp(b.dlsr);
+        for k in rb_order(b, 0x9e37) {
+            bld = rb_set(bld, k, b, true);
+        }
     }
-    ReportBlock::builder(b.ssrc)
-        .fraction_lost(b.fraction)
-        .cumulative_lost(b.cumulative)
-        .extended_sequence_number(b.ext_seq)
-        .interarrival_jitter(b.jitter)
-        .last_sender_report_timestamp(b.lsr)
-        .delay_since_last_sender_report_timestamp(b.dlsr)
+    for k in rb_order(b, 0) {
+        bld = rb_set(bld, k, b, false);
+    }
+    bld
 }
 
 pub fn mk_item<'a>(i: &'a Item) -> SdesItemBuilder<'a> {
